@@ -227,3 +227,32 @@ fn k_checksum_covers_allocated() {
   let want = (target - reserved) as u64;
   assert!(a.checksum(&PosSum) == (want << 32) ^ want);
 }
+
+/// bounded(capacity 96, Freelist::None; a buffer of 1..=24 bytes is dirtied at a symbolic index and then given up either by
+/// rewind (detached) or by drop (dealloc on top); the next alloc_bytes of 1..=32 bytes must read zero at every index): C08
+#[kani::proof]
+#[kani::unwind(4)]
+fn k_zero_after_rewind_or_release() {
+  let a = Options::new().with_capacity(96).with_freelist(Freelist::None).alloc::<Arena>().unwrap();
+  let mark = a.allocated() as u32;
+  let (n1, n2): (u32, u32) = (kani::any(), kani::any());
+  kani::assume(n1 >= 1 && n1 <= 24 && n2 >= 1 && n2 <= 32);
+  let Ok(mut b) = a.alloc_bytes(n1) else { return; };
+  let off = b.offset();
+  let i: usize = kani::any();
+  kani::assume(i < n1 as usize);
+  unsafe { *a.get_pointer_mut(off).add(i) = 0xAA; }
+  if kani::any() {
+    unsafe { b.detach(); }
+    drop(b);
+    unsafe { a.rewind(ArenaPosition::Start(mark)) };
+  } else {
+    drop(b);
+  }
+  assert!(a.allocated() as u32 == mark);
+  let Ok(z) = a.alloc_bytes(n2) else { return; };
+  assert!(z.offset() == off && z.capacity() == n2 as usize);
+  let j: usize = kani::any();
+  kani::assume(j < n2 as usize);
+  assert!(unsafe { a.get_bytes(z.offset(), z.capacity()) }[j] == 0);
+}
